@@ -35,8 +35,9 @@ class Terms:
         if self._ref_init is None:
             r = {}
             f = self.fn
+            loopvarstmts = {n['loopvarstmt'] for n in f.nodes if n['k'] == 'CXXForRangeStmt'}
             for n in f.nodes:
-                if n['k'] != 'DeclStmt':
+                if n['k'] != 'DeclStmt' or n['i'] in loopvarstmts:
                     continue
                 for ix, d in enumerate(n['decls']):
                     dd = self.u.decl(d)
